@@ -1,7 +1,7 @@
 /-
 C08 lemmas: `tovec` / `from_vector` round trip (blocks of a flattened list, F-order reshape).
 -/
-import PyttbModel.Lemmas.KruskalAlgebra
+import PyttbModel.Lemmas.KruskalNormalize
 namespace Pyttb
 
 variable {α : Type}
@@ -108,6 +108,23 @@ theorem length_tovec [Zero α] (K : Ktensor α) (w : Bool) :
   unfold Ktensor.shape
   cases w <;> simp [ncomp, Nat.mul_add, Nat.add_comm]
 
+theorem tovec_segment [Zero α] (K : Ktensor α) (w : Bool) (n : Nat) (h1 : n < K.factors.length) :
+    ((K.tovec w).drop (K.ncomp * (K.shape.take n).sum + if w = true then K.ncomp else 0)).take
+        (K.ncomp * (K.factors[n]).length) = colBlock K.factors[n] K.ncomp := by
+  rw [tovec_eq]
+  have hpre : (if w = true then K.weights else []).length = (if w = true then K.ncomp else 0) := by
+    cases w <;> simp [ncomp]
+  rw [List.drop_append, List.drop_eq_nil_of_le (by rw [hpre]; omega), List.nil_append, hpre]
+  have e1 : K.ncomp * (K.shape.take n).sum + (if w = true then K.ncomp else 0)
+      - (if w = true then K.ncomp else 0) = K.ncomp * (K.shape.take n).sum := by omega
+  rw [e1]
+  have hb := flatten_drop_take_block (K.factors.map fun A => colBlock A K.ncomp) n (by simpa using h1)
+  rw [sum_take_blocks] at hb
+  have e2 : (K.factors.map fun A => colBlock A K.ncomp).getD n [] = colBlock K.factors[n] K.ncomp := by
+    simp [List.getD_eq_getElem?_getD, h1]
+  rw [e2, length_colBlock] at hb
+  exact hb
+
 /-- `from_vector(tovec(K, w), K.shape, w)` gives back `K` (`w = true`) or `K` with unit weights
 (`w = false`). -/
 theorem fromVector_tovec [Zero α] [One α] (K : Ktensor α) (w : Bool) (hK : K.WF) (hN : K.factors ≠ [])
@@ -138,23 +155,147 @@ theorem fromVector_tovec [Zero α] [One α] (K : Ktensor α) (w : Bool) (hK : K.
       have hs : K.shape.getD n 0 = (K.factors[n]).length := by
         simp [Ktensor.shape, List.getD_eq_getElem?_getD, h1]
       rw [hs]
-      have hseg : ((K.tovec w).drop (K.ncomp * (K.shape.take n).sum + if w = true then K.ncomp else 0)).take
-          (K.ncomp * (K.factors[n]).length) = colBlock K.factors[n] K.ncomp := by
-        rw [tovec_eq]
-        have hpre : (if w = true then K.weights else []).length = (if w = true then K.ncomp else 0) := by
-          cases w <;> simp [ncomp]
-        rw [List.drop_append, List.drop_eq_nil_of_le (by rw [hpre]; omega), List.nil_append, hpre]
-        have e1 : K.ncomp * (K.shape.take n).sum + (if w = true then K.ncomp else 0)
-            - (if w = true then K.ncomp else 0) = K.ncomp * (K.shape.take n).sum := by omega
-        rw [e1]
-        have hb := flatten_drop_take_block (K.factors.map fun A => colBlock A K.ncomp) n (by simpa using h1)
-        rw [sum_take_blocks] at hb
-        have e2 : (K.factors.map fun A => colBlock A K.ncomp).getD n [] = colBlock K.factors[n] K.ncomp := by
-          simp [List.getD_eq_getElem?_getD, h1]
-        rw [e2, length_colBlock] at hb
-        exact hb
+      have hseg := tovec_segment K w n h1
       rw [hseg]
       exact reshapeCols_colBlock _ _ (hK _ (List.getElem_mem h2))
+
+/-! ### `update` -/
+
+theorem updateStep_weights [Zero α] (data : List α) (loc : Nat) (Kc : Ktensor α)
+    (h : loc + Kc.ncomp ≤ data.length) :
+    updateStep data (loc, Kc) (-1) = .ok (loc + Kc.ncomp, ⟨(data.drop loc).take Kc.ncomp, Kc.factors⟩) := by
+  unfold updateStep
+  simp only [BEq.rfl, if_true]
+  rw [if_neg (by simp; omega)]
+
+theorem updateStep_mode [Zero α] (data : List α) (loc : Nat) (Kc : Ktensor α) (n : Nat)
+    (hn : n < Kc.factors.length)
+    (h : loc + (Kc.factors.getD n []).length * Kc.ncomp ≤ data.length) :
+    updateStep data (loc, Kc) (Int.ofNat n)
+      = .ok (loc + (Kc.factors.getD n []).length * Kc.ncomp,
+          ⟨Kc.weights, Kc.factors.set n (reshapeCols ((data.drop loc).take ((Kc.factors.getD n []).length * Kc.ncomp))
+            (Kc.factors.getD n []).length Kc.ncomp)⟩) := by
+  unfold updateStep
+  have a : (Int.ofNat n == -1) = false := by
+    rw [beq_eq_false_iff_ne]
+    intro e
+    have : (0 : Int) ≤ Int.ofNat n := Int.natCast_nonneg n
+    omega
+  simp only [a, Bool.false_eq_true, if_false]
+  rw [if_pos (by simp [ndims]; exact hn)]
+  rw [ndims_eq, wrapIdx_ofNat hn]
+  simp only
+  rw [if_neg (by intro hc; have := of_decide_eq_true hc; omega)]
+
+theorem update_modes_sorted (N : Nat) :
+    ((((-1 : Int) :: (List.range N).map Int.ofNat).zip
+      (((-1 : Int) :: (List.range N).map Int.ofNat).tail)).all fun p => decide (p.1 ≤ p.2)) = true := by
+  rw [List.all_eq_true]
+  intro p hp
+  simp only [decide_eq_true_eq]
+  obtain ⟨k, hk1, hk2⟩ := List.getElem_of_mem hp
+  simp only [List.length_zip, List.length_cons, List.length_map, List.length_range] at hk1
+  rw [List.getElem_zip] at hk2
+  rw [← hk2]
+  simp only
+  cases k with
+  | zero => simp [List.getElem_cons_zero]
+  | succ k =>
+    simp only [List.getElem_cons_succ, List.getElem_map, List.getElem_range]
+    simp
+
+/-- state of the `update` loop after the weights and the first `k` modes -/
+theorem update_invariant [Zero α] (K L : Ktensor α) (hL : L.WF) (hs : K.shape = L.shape)
+    (hR : K.ncomp = L.ncomp) (k : Nat) (hk : k ≤ L.factors.length) :
+    ((List.range k).map Int.ofNat).foldlM (updateStep (L.tovec true))
+        (L.ncomp, (⟨L.weights, K.factors⟩ : Ktensor α))
+      = .ok (L.ncomp * (L.shape.take k).sum + L.ncomp,
+          ⟨L.weights, L.factors.take k ++ K.factors.drop k⟩) := by
+  have hlenF : K.factors.length = L.factors.length := by
+    have := congrArg List.length hs
+    simpa [Ktensor.shape] using this
+  induction k with
+  | zero => simp [List.foldlM_nil]; rfl
+  | succ k ih =>
+    rw [List.range_succ, List.map_append, List.foldlM_append, ih (by omega)]
+    simp only [List.map_cons, List.map_nil, List.foldlM_cons, List.foldlM_nil, except_ok_bind, bind_pure]
+    have hkL : k < L.factors.length := by omega
+    have hkK : k < K.factors.length := by omega
+    -- the current factor at position k is still K's, of the same height as L's
+    have hcur : ((L.factors.take k ++ K.factors.drop k).getD k []) = K.factors[k] := by
+      rw [List.getD_eq_getElem?_getD, List.getElem?_append_right (by simp)]
+      simp [List.length_take, Nat.min_eq_left (Nat.le_of_lt hkL), hkK]
+    have hheight : (K.factors[k]).length = (L.factors[k]).length := by
+      have := congrArg (fun l => l.getD k 0) hs
+      simpa [Ktensor.shape, List.getD_eq_getElem?_getD, hkK, hkL] using this
+    have hlenK : k < (L.factors.take k ++ K.factors.drop k).length := by
+      simp [List.length_take, Nat.min_eq_left (Nat.le_of_lt hkL)]; omega
+    have hdata := length_tovec L true
+    have hseg := tovec_segment L true k hkL
+    simp only [if_true] at hseg hdata
+    -- enough data
+    have hsum : (L.shape.take (k + 1)).sum = (L.shape.take k).sum + (L.factors[k]).length := by
+      have : L.shape.take (k + 1) = L.shape.take k ++ [(L.factors[k]).length] := by
+        rw [List.take_add_one]
+        simp [Ktensor.shape, hkL]
+      rw [this, List.sum_append]
+      simp
+    have hle : (L.shape.take (k + 1)).sum ≤ L.shape.sum := by
+      have := List.sum_take_add_sum_drop L.shape (k + 1)
+      omega
+    rw [updateStep_mode _ _ _ k hlenK (by
+      rw [hcur, hheight, hdata]
+      simp only [ncomp_mk]
+      have : L.ncomp * (L.shape.take k).sum + L.ncomp + (L.factors[k]).length * L.weights.length
+          = L.ncomp * (L.shape.take (k + 1)).sum + L.ncomp := by
+        rw [hsum, Nat.mul_add, ← ncomp_eq, Nat.mul_comm (L.factors[k]).length]; omega
+      rw [this, Nat.mul_add, Nat.mul_one]
+      exact Nat.add_le_add_right (Nat.mul_le_mul_left _ hle) _)]
+    rw [hcur, hheight]
+    simp only [ncomp_mk]
+    congr 2
+    · rw [hsum, Nat.mul_add, ← ncomp_eq, Nat.mul_comm (L.factors[k]).length]; omega
+    · congr 1
+      have hA : ∀ row ∈ L.factors[k], row.length = L.ncomp := hL _ (List.getElem_mem hkL)
+      rw [← ncomp_eq, Nat.mul_comm (L.factors[k]).length, hseg, reshapeCols_colBlock _ _ hA]
+      -- replacing position k of (L.take k ++ K.drop k) by L[k] gives L.take (k+1) ++ K.drop (k+1)
+      apply List.ext_getElem
+      · simp [List.length_take]; omega
+      · intro j h1 h2
+        rw [List.getElem_set]
+        by_cases hj : j < k
+        · rw [if_neg (by omega), List.getElem_append_left (by simp [List.length_take]; omega),
+            List.getElem_append_left (by simp [List.length_take]; omega)]
+          simp
+        · by_cases hjk : j = k
+          · subst hjk
+            rw [if_pos rfl, List.getElem_append_left (by simp [List.length_take]; omega)]
+            simp
+          · rw [if_neg (by omega), List.getElem_append_right (by simp [List.length_take]; omega),
+              List.getElem_append_right (by simp [List.length_take]; omega)]
+            simp [List.length_take, Nat.min_eq_left (Nat.le_of_lt hkL), Nat.min_eq_left hk]
+            congr 1
+            omega
+
+theorem update_tovec [Zero α] (K L : Ktensor α) (hL : L.WF) (hs : K.shape = L.shape)
+    (hR : K.ncomp = L.ncomp) :
+    K.update ((-1 : Int) :: (List.range K.factors.length).map Int.ofNat) (L.tovec true) = .ok L := by
+  have hlenF : K.factors.length = L.factors.length := by
+    have := congrArg List.length hs
+    simpa [Ktensor.shape] using this
+  unfold update
+  rw [update_modes_sorted]
+  simp only [Bool.not_true, Bool.false_eq_true, if_false, List.foldlM_cons]
+  have hdata := length_tovec L true
+  simp only [if_true] at hdata
+  rw [updateStep_weights _ _ _ (by rw [hdata, hR, Nat.mul_add]; omega)]
+  simp only [except_ok_bind, Nat.zero_add, List.drop_zero]
+  have hw : (L.tovec true).take K.ncomp = L.weights := by
+    rw [tovec_eq, hR]
+    exact List.take_left' rfl
+  rw [hw, hR, hlenF, update_invariant K L hL hs hR L.factors.length (le_refl _)]
+  simp only [Except.map]
+  rw [List.take_of_length_le (le_refl _), List.drop_eq_nil_of_le (by omega), List.append_nil]
 
 end Ktensor
 end Pyttb
